@@ -160,6 +160,15 @@ def check(tier):
     fold += [un("-", x) for x in N]
     fold += [case((c_, x), (lit(True), y)) for c_ in B for x in (a_, lit(2), lit(None)) for y in (b_, lit(0), lit(None))]
     fold += [case((c_, x)) for c_ in B for x in (a_, lit(2), lit(None))]
+    # branch values over the boolean domain: `case [c => true, true => false]` is not `c` (a NULL condition takes the default),
+    # observed where NULL and false differ (projected, negated, null-tested, coalesced), with two and three branches
+    TF = [lit(True), lit(False), bin_(">", b_, lit(0)), lit(None)]
+    bcases = [case((c_, x), (lit(True), y)) for c_ in B for x in TF[:3] for y in TF if x != y]
+    bcases += [case((bin_("==", lit(1), lit(2)), bin_(">", b_, lit(0))), (c_, x), (lit(True), y)) for c_ in B[:2] + B[5:] for x in TF[:2] for y in TF[:2] if x != y]
+    bcases += [case((c_, x), (lit(False), lit(None)), (lit(True), y)) for c_ in B[:2] for x in TF[:2] for y in TF[:2] if x != y]
+    fold += bcases
+    fold += [un("!", e_) for e_ in bcases[:40]] + [bin_("==", e_, lit(None)) for e_ in bcases[:24]] + [bin_("??", e_, lit(True)) for e_ in bcases[:24]]
+    fold += [bin_("&&", e_, lit(True)) for e_ in bcases[:12]] + [bin_("||", e_, lit(False)) for e_ in bcases[:12]]
     fold += [bin_(op, bin_(op2, x, y), z) for op in ("&&", "||") for op2 in ("&&", "||") for x in B[:5] for y in (lit(True), lit(False), lit(None)) for z in (B[0], lit(None))]
     fprogs = [{"id": f"f{i}", "decl": True, "steps": [from_("t"), select(item(e, "v"))]} for i, e in enumerate(fold)]
     fprogs += [{"id": f"ff{i}", "decl": True, "steps": [from_("t"), filter_(e), select(item("k"))]} for i, e in enumerate(fold[:78])]
